@@ -1,6 +1,7 @@
 package parser
 
 import (
+	"math"
 	"unicode"
 
 	comb "github.com/moorara/algo/parser/combinator"
@@ -70,7 +71,11 @@ func toNum(r comb.Result) (comb.Result, bool) {
 
 	var num int
 	for _, r := range l {
-		num = num*10 + r.Val.(int)
+		d := r.Val.(int)
+		if num > (math.MaxInt-d)/10 {
+			return comb.Result{}, false // Overflow
+		}
+		num = num*10 + d
 	}
 
 	return comb.Result{
